@@ -17,7 +17,7 @@ PROP = {
         "unit TestWiringThroughManager: the watcher is the one the gateway builds itself - a policy-mode routing.HandlingDataManager is set up per case (NewHandlingDataManager + Setup, as main() does; each gets a net/http default mux of its own because Setup registers the metrics route there), its watcher runs on the process clock and process context of the context manager; the process clock is the case's virtual clock (for the watcher goroutine, recognised by its call stack, Sleep moves time at once and After timers are fired earliest-first by a driver once the watcher waits; other goroutines are parked on the same time line); in three cases of four the shutdown signal (the context manager's context is cancelled, as SIGTERM does) arrives during a generated observation - main() does not exit on it, so the reactions must stay those of the statement, cool-down included; judged like TestWiring (temporal conditions + differential with a bare watcher)",
         "unit TestWiringWithProxyFaults: the management calls (PUT) of generated reaction attempts are answered 503; a refused attempt counts as the watcher's reaction at the instant of its first call (direction: the opposite of the attempt before); the process clock is the case's virtual clock in a variant that parks sleepers of other goroutines until the watcher has moved time past their wake-up, so background work runs inside the case's time line; the policies may change only right after a qualifying run of observations (same reactions, at the same observations, as a bare watcher on the same script)",
         "one predicate call takes > 0 virtual time (the real predicate is an HTTP round trip); the watcher blocks only in clock.After / clock.Sleep, which advance virtual time immediately",
-        "the time of an observation may be read as the call or the return of the predicate, and the stable period may be measured from the run's first observation or from the previous observation; a reaction is accepted if any reading satisfies the statement",
+        "the time of an observation may be read as the call or the return of the predicate: the span of the consecutive checks that observed the new state is measured from the call of the first of them (the most tolerant reading of 'consecutive checks spanning at least the stable period') to the reaction. Until round 12 a span measured from the return of the previous check - which observed the other state and is not one of them - was accepted too; that accepted less than the statement says and hid a stable period that starts one check interval early (C20-12)",
         "completeness is checked only with a clear margin (strictest reading of count and span plus one further observation of the same state); firing exactly at the N-th observation is counted (class reactions-at-earliest-allowed-observation, ref-agree) but not demanded",
         "the statement forbids reactions inside the cool-down; observations inside the cool-down are neither required nor forbidden",
     ],
